@@ -37,6 +37,10 @@ impl XzGenParams {
 
 /// One LZMA2 payload + its plaintext, from the reference writer or liblzma.
 pub fn gen_payload(rng: &mut Rng, small: bool) -> (Vec<u8>, Vec<u8>, String) {
+    // an LZMA2 stream without any chunk (just the end byte): an empty block
+    if rng.chance(1, 40) {
+        return (vec![0], vec![], "empty-lzma2".to_string());
+    }
     #[cfg(not(miri))]
     if !small && rng.chance(1, 4) {
         let n = rng.range(1, 40_000) as usize;
